@@ -202,7 +202,13 @@ Definition wf_op (s : fs) (o : op) : Prop :=
   | CutOOO => True
   | Merge ps _ =>
       let bs := filter (fun b => memZ (b_id b) ps) (f_blk s) in
-      forallb b_ooo bs = true \/ list_max (map b_maxt bs) minInt64 <= min_valid s
+      (* a merge either has only out-of-order parents or does not raise the in-order horizon;
+         deleting the parents of an empty result does not lower it *)
+      (flat_map blk_vis bs <> [] ->
+       forallb b_ooo bs = true \/ list_max (map b_maxt bs) minInt64 <= min_valid s) /\
+      (flat_map blk_vis bs = [] ->
+       min_valid (mkFs (f_wal s) (f_cp s) (f_cptmp s) (f_wbl s)
+                       (filter (fun b' => negb (memZ (b_id b') (map b_id bs))) (f_blk s)) [] []) = min_valid s)
   end.
 
 (* ================= lists of segments ================= *)
@@ -1823,6 +1829,110 @@ Qed.
 
 End MergeProofs.
 
+Section EmptyMerge.
+Variable s : fs.
+Hypothesis I : Inv s.
+Variable parents : list Z.
+Let ps := filter (fun b => memZ (b_id b) parents) (f_blk s).
+Let pids := map b_id ps.
+Hypothesis Hempty : flat_map blk_vis ps = [].
+Hypothesis Hmv : mv_of (rest s pids) = mv_of (f_blk s).
+
+Definition estate (D : list Z) (del : list blk) : fs :=
+  mkFs (f_wal s) (f_cp s) (f_cptmp s) (f_wbl s) (rest s D) [] del.
+
+Lemma inv_estate D : Inv (estate D []).
+Proof. apply (inv_filter_blocks s _ I). Qed.
+
+Lemma mv_of_filter_le g l : mv_of (filter g l) <= mv_of l.
+Proof. rewrite (mv_of_split g l). lia. Qed.
+
+Lemma visible_estate D del :
+  (forall d, In d D -> In d pids) -> same_set (visible (estate D del)) (visible s).
+Proof.
+  intros HD x.
+  assert (E : visible (estate D del) = visible (estate D [])) by (apply visible_ext; reflexivity).
+  rewrite E. rewrite (in_visible_inv _ x (inv_estate D)), (in_visible_inv s x I).
+  change (f_blk (estate D [])) with (rest s D).
+  change (wal_samples (estate D [])) with (wal_samples s).
+  change (ooo (estate D [])) with (ooo s). change (head_tombs (estate D [])) with (head_tombs s).
+  assert (Emv : mv_of (rest s D) = mv_of (f_blk s)).
+  { pose proof (mv_of_filter_le (fun b' => negb (memZ (b_id b') D)) (f_blk s)) as H1. fold (rest s D) in H1.
+    assert (H2 : rest s pids = filter (fun b' => negb (memZ (b_id b') pids)) (rest s D)).
+    { unfold rest. rewrite filter_filter. apply filter_ext_in'. intros b' _.
+      destruct (memZ (b_id b') pids) eqn:E1; destruct (memZ (b_id b') D) eqn:E2; simpl; try reflexivity.
+      apply memZ_In in E2. apply HD in E2. apply memZ_In in E2. congruence. }
+    pose proof (mv_of_filter_le (fun b' => negb (memZ (b_id b') pids)) (rest s D)) as H3. rewrite <- H2 in H3. lia. }
+  rewrite Emv. split.
+  - intros [[b' [Hb' Hx]]|H]; [|right; exact H]. left. exists b'. unfold rest in Hb'. apply filter_In in Hb'. tauto.
+  - intros [[b' [Hb' [Hx Hc]]]|H]; [|right; exact H]. left. exists b'. split; [|auto].
+    unfold rest. apply filter_In. split; [exact Hb'|]. apply negb_true_iff. apply memZ_false. intros Hd.
+    apply HD in Hd. apply (in_ps s I parents b' Hb') in Hd.
+    assert (Hin : In x (flat_map blk_vis ps)).
+    { apply in_flat_map. exists b'. split; [exact Hd|]. unfold blk_vis. apply filter_In. rewrite Hc. auto. }
+    rewrite Hempty in Hin. exact Hin.
+Qed.
+
+Definition edel_ok (o : fsop) : Prop := exists p, o = BlkToDel p \/ o = DelRemove p.
+
+Lemma estate_steps tr : Forall edel_ok tr -> forall D del,
+  exists D' del', (forall d, In d D' -> In d D \/ exists p, d = p /\ In (BlkToDel p) tr) /\
+                  durable (estate D del) tr = estate D' del'.
+Proof.
+  induction tr as [|o tr IH]; intros F D del.
+  - exists D, del. split; [auto|reflexivity].
+  - inversion F as [|? ? Ho F']; subst. destruct Ho as [p [Ho|Ho]]; subst o; cbn [durable fold_left].
+    + assert (E : apply (estate D del) (BlkToDel p) = estate (p :: D) (without p del ++ with_id p (rest s D))).
+      { unfold estate. cbn [apply f_wal f_cp f_cptmp f_wbl f_blk f_tmp f_del]. f_equal.
+        unfold without, rest. rewrite filter_filter. apply filter_ext_in'. intros b' _. simpl. unfold has_id.
+        destruct (Z.eqb_spec (b_id b') p), (Z.eqb_spec p (b_id b')); try congruence; simpl; try reflexivity.
+        - rewrite andb_false_r. reflexivity.
+        - rewrite andb_true_r. reflexivity. }
+      change (fold_left apply tr (apply (estate D del) (BlkToDel p))) with (durable (apply (estate D del) (BlkToDel p)) tr).
+      rewrite E. destruct (IH F' (p :: D) (without p del ++ with_id p (rest s D))) as [D' [del' [H1 H2]]].
+      exists D', del'. split; [|exact H2]. intros d Hd. destruct (H1 d Hd) as [[Hd'|Hd']|[q [Eq Hq]]].
+      * right. exists p. split; [auto|left; reflexivity].
+      * left. exact Hd'.
+      * right. exists q. split; [exact Eq|right; exact Hq].
+    + change (fold_left apply tr (apply (estate D del) (DelRemove p))) with (durable (apply (estate D del) (DelRemove p)) tr).
+      change (apply (estate D del) (DelRemove p)) with (estate D (without p del)).
+      destruct (IH F' D (without p del)) as [D' [del' [H1 H2]]]. exists D', del'. split; [|exact H2].
+      intros d Hd. destruct (H1 d Hd) as [Hd'|[q [Eq Hq]]]; [left; exact Hd'|]. right. exists q. split; [exact Eq|right; exact Hq].
+Qed.
+
+Lemma estate_full T : forall D,
+  durable (estate D []) (flat_map del_steps T) =
+  estate (rev (flat_map (fun tg => match tg with TBlk p => [p] | THead => [] end) T) ++ D) [].
+Proof.
+  induction T as [|tg T IH]; intros D; [reflexivity|]. cbn [flat_map]. rewrite durable_app.
+  destruct tg as [|p]; cbn [del_steps].
+  - cbn [durable fold_left]. rewrite IH. reflexivity.
+  - assert (E : durable (estate D []) [BlkToDel p; DelRemove p] = estate (p :: D) []).
+    { cbn [durable fold_left]. unfold estate. cbn [apply f_wal f_cp f_cptmp f_wbl f_blk f_tmp f_del]. f_equal.
+      - unfold without, rest. rewrite filter_filter. apply filter_ext_in'. intros b' _. simpl. unfold has_id.
+        destruct (Z.eqb_spec (b_id b') p), (Z.eqb_spec p (b_id b')); try congruence; simpl; try reflexivity.
+        + rewrite andb_false_r. reflexivity.
+        + rewrite andb_true_r. reflexivity.
+      - simpl. unfold without, with_id. rewrite filter_filter.
+        rewrite (filter_ext_in' _ (fun _ => false)); [induction (rest s D); simpl; auto|].
+        intros x _. destruct (has_id p x); reflexivity. }
+    rewrite E, IH. simpl. rewrite <- app_assoc. reflexivity.
+Qed.
+
+Lemma edel_steps_ok T : Forall edel_ok (flat_map del_steps T).
+Proof.
+  induction T as [|tg T IH]; simpl; [constructor|]. apply Forall_app. split; [|exact IH].
+  destruct tg as [|p]; simpl; [constructor|]. constructor; [exists p; auto|]. constructor; [exists p; auto|constructor].
+Qed.
+
+End EmptyMerge.
+
+Lemma estate_nil s : f_tmp s = [] -> f_del s = [] -> s = estate s [] [].
+Proof.
+  intros Ht Hd. unfold estate, rest. rewrite filter_all by (intros; reflexivity).
+  destruct s; simpl in *; subst; reflexivity.
+Qed.
+
 Lemma merge_good c m parents order :
   Inv (m_fs m) -> wf_op (m_fs m) (Merge parents order) -> op_good c m (Merge parents order).
 Proof.
@@ -1835,19 +1945,37 @@ Proof.
   unfold merge_trace.
   set (ps := filter (fun b => memZ (b_id b) parents) (f_blk s)) in *.
   set (data := flat_map blk_vis ps).
-  destruct data as [|d0 data0] eqn:Ed.
-  { split; [exact I|]. intros j. rewrite firstn_nil. apply same_set_refl. }
-  rewrite <- Ed. clear Ed d0 data0. cbv zeta.
-  set (pids := map b_id ps).
-  set (b := mkBlk (fresh s) (list_min (map b_mint ps) maxInt64) (list_max (map b_maxt ps) minInt64)
-                  (forallb b_ooo ps) pids data []).
+  destruct Wf as [Wf1 Wf2]. fold ps in Wf1, Wf2. fold data in Wf1, Wf2.
+  set (pids := map b_id ps) in *.
   set (T := sched order (map (fun q => TBlk (b_id q)) ps)).
-  change (flat_map (fun tg => match tg with TBlk p => [BlkToDel p; DelRemove p] | THead => [] end) T)
-    with (flat_map del_steps T).
   assert (HT : forall p, In (TBlk p) T <-> In p pids).
   { intros p. unfold T. rewrite sched_In, in_map_iff. unfold pids. rewrite in_map_iff. split.
     - intros [q [E Hq]]. inversion E. exists q. auto.
     - intros [q [E Hq]]. exists q. split; [congruence|exact Hq]. }
+  destruct data as [|d0 data0] eqn:Ed.
+  { (* empty result: the parents are deleted *)
+    change (flat_map (fun tg => match tg with TBlk p => [BlkToDel p; DelRemove p] | THead => [] end) T)
+      with (flat_map del_steps T).
+    specialize (Wf2 eq_refl).
+    assert (Hmv : mv_of (rest s pids) = mv_of (f_blk s)).
+    { rewrite <- (min_valid_mv s I), <- Wf2. symmetry.
+      apply (min_valid_mv _ (inv_filter_blocks s _ I)). }
+    assert (Es : s = estate s [] []) by (apply estate_nil; apply I).
+    split.
+    - rewrite Es at 1. rewrite (estate_full s T []). apply inv_estate. exact I.
+    - intros j. rewrite Es at 1.
+      destruct (estate_steps s (firstn j (flat_map del_steps T)) (Forall_firstn _ _ j (edel_steps_ok T)) [] []) as [D' [del' [HD' E']]].
+      rewrite E'. apply (visible_estate s I parents Ed Hmv D' del').
+      intros d Hd. destruct (HD' d Hd) as [[]|[p [Ep Hp]]]. subst d. apply in_firstn in Hp.
+      apply in_flat_map in Hp. destruct Hp as [tg [Htg Hp]]. destruct tg as [|q]; [contradiction|].
+      destruct Hp as [Hp|[Hp|[]]]; inversion Hp; subst. apply HT. exact Htg. }
+  assert (Wf : forallb b_ooo ps = true \/ list_max (map b_maxt ps) minInt64 <= min_valid s)
+    by (apply Wf1; discriminate).
+  rewrite <- Ed. rewrite <- Ed in Wf1, Wf2. clear Ed d0 data0. cbv zeta.
+  set (b := mkBlk (fresh s) (list_min (map b_mint ps) maxInt64) (list_max (map b_maxt ps) minInt64)
+                  (forallb b_ooo ps) pids data []).
+  change (flat_map (fun tg => match tg with TBlk p => [BlkToDel p; DelRemove p] | THead => [] end) T)
+    with (flat_map del_steps T).
   assert (E0 : durable s [TmpFill b; BlkRename (b_id b)] = mstate s parents [] []).
   { rewrite (write_block_state s b I eq_refl). unfold add_block, mstate. fold ps. fold pids. fold data. fold b.
     rewrite (i_del s I). f_equal. f_equal. unfold rest. symmetry. apply filter_all. intros; reflexivity. }
@@ -2072,7 +2200,7 @@ Proof.
   destruct i as [|i]; [inversion H; subst o; exact Logic.I|].
   destruct i as [|i]; [inversion H; subst o; clear H; cbn [wf_op]; vm_compute; discriminate|].
   destruct i as [|i]; [inversion H; subst o; exact Logic.I|].
-  destruct i as [|i]; [inversion H; subst o; clear H; cbn [wf_op]; right; vm_compute; discriminate|].
+  destruct i as [|i]; [inversion H; subst o; clear H; cbn [wf_op]; split; [intros _; right; vm_compute; discriminate|intros E; vm_compute in E; discriminate E]|].
   destruct i as [|i]; [inversion H; subst o; clear H; cbn [wf_op]; wf_commit|].
   destruct i as [|i]; [inversion H; subst o; clear H; cbn [wf_op]; wf_delete|].
   destruct i; discriminate H.
